@@ -36,7 +36,7 @@ CHECKS = {
    text='All 31k histories of length <= 3 (4 over a core, thorough) over 36 beartype.claw operations (beartype_all / package(s) / this_package / beartyping enter+exit; equal, different, skipping and invalid configurations; equal, ancestor, descendant, sibling, excluded and invalid names) are replayed on the real registry; after the last step the outcome class, 13 package lookups, path-hook presence, "raising operation leaves the registry unchanged" and "exit restores the pre-enter state" are compared with the model.',
    note='The registry is reset between histories by a harness snapshot of claw_state + sys.path_hooks; that discipline is cross-checked against forked processes on every depth-1 and sampled depth-2 history each run.', ref='5/C06'),
  'C15': dict(engine='E3-sched', technique='stateless model checking of real threads under a controlled scheduler: every interleaving with at most k preemptions at line granularity inside shared-state functions (iterative preemption bounding)',
-   text='10 scenarios of 2-3 real threads (TypeHint / BeartypeConf singletons, checks and decorations over fresh shared hints, package registrations and beartyping() against lookups, pooled scratch objects) run under a settrace baton scheduler; scheduling points are every line of the 61 mechanically inventoried shared-state functions and every lock acquire (beartype's 7 locks are replaced by cooperative locks at run time); all schedules with <= 1 preemption (quick) / <= 2 (thorough) are executed; results must equal a sequential outcome, singletons must be identical, no exception, no deadlock.',
+   text='10 scenarios of 2-3 real threads (TypeHint / BeartypeConf singletons, checks and decorations over fresh shared hints, package registrations and beartyping() against lookups, pooled scratch objects) run under a settrace baton scheduler; scheduling points are every line of the 61 mechanically inventoried shared-state functions and every lock acquire (the 7 lock objects beartype owns are replaced by cooperative locks at run time); all schedules with <= 1 preemption (quick) / <= 2 (thorough) are executed; results must equal a sequential outcome, singletons must be identical, no exception, no deadlock.',
    note='Assumes GIL atomicity of a source line that calls no inventoried function, and that functions outside the inventory touch only thread-local or immutable state; free-threaded builds and more than 3 threads are not explored.', ref='5/C15'),
 }
 NOT_YET = {}
